@@ -63,7 +63,7 @@ example : hEx.wf = true ∧ hEx.inv = true ∧ 0 < hEx.conts.length ∧
 
 /-- `immutable_filter` on a writeable input hands back a fresh, frozen, un-aliased array with the
     same content: later writes by the caller through the input are never visible. -/
-theorem filter_isolates (h : Heap) (a : Nat) (x : Arr) (hw : h.wf = true) (hx : h.arrs[a]? = some x)
+theorem filter_isolates (h : Heap) (a : Nat) (x : HArr) (hw : h.wf = true) (hx : h.arrs[a]? = some x)
     (hwr : x.writeable = true) :
     (h.step (.filter a)).isolated (h.filterResult a) = true ∧
     (h.step (.filter a)).bufs.getD ((h.step (.filter a)).arrs.getD (h.filterResult a) default).buf [] = h.bufs.getD x.buf [] := by
@@ -81,20 +81,20 @@ theorem filter_isolates (h : Heap) (a : Nat) (x : Arr) (hw : h.wf = true) (hx : 
   · simp [step, filterResult, hx, hwr]
 
 /-- non-vacuity -/
-example : hEx.wf = true ∧ hEx.arrs[1]? = some ⟨1, true⟩ ∧ (⟨1, true⟩ : Arr).writeable = true ∧
+example : hEx.wf = true ∧ hEx.arrs[1]? = some ⟨1, true⟩ ∧ (⟨1, true⟩ : HArr).writeable = true ∧
     hEx.filterResult 1 = 2 := by decide
 
 /-- a read-only input is used as it is (the caller-side alias the property's statement permits) -/
-theorem filter_keeps_frozen (h : Heap) (a : Nat) (x : Arr) (hx : h.arrs[a]? = some x)
+theorem filter_keeps_frozen (h : Heap) (a : Nat) (x : HArr) (hx : h.arrs[a]? = some x)
     (hwr : x.writeable = false) : h.step (.filter a) = h ∧ h.filterResult a = a := by
   simp [step, filterResult, hx, hwr]
 
 /-- non-vacuity -/
-example : hEx.arrs[0]? = some ⟨0, false⟩ ∧ (⟨0, false⟩ : Arr).writeable = false := by decide
+example : hEx.arrs[0]? = some ⟨0, false⟩ ∧ (⟨0, false⟩ : HArr).writeable = false := by decide
 
 /-- copy then freeze (pickle / deepcopy / every freeze site after an allocation): the new array is
     isolated and holds the same content. -/
-theorem copy_freeze_isolated (h : Heap) (a : Nat) (x : Arr) (hw : h.wf = true) (hx : h.arrs[a]? = some x) :
+theorem copy_freeze_isolated (h : Heap) (a : Nat) (x : HArr) (hw : h.wf = true) (hx : h.arrs[a]? = some x) :
     let h2 := (h.step (.copy a)).step (.freeze h.arrs.length)
     h2.isolated h.arrs.length = true ∧ h2.bufs.getD h.bufs.length [] = h.bufs.getD x.buf [] := by
   rw [wf_iff] at hw
@@ -120,13 +120,13 @@ example : hEx.wf = true ∧ hEx.arrs[1]? = some ⟨1, true⟩ := by decide
 
 /-- a container may be constructed from filtered inputs: constructing from `filter` results of
     writeable inputs is always legal -/
-theorem construct_after_filter_legal (h : Heap) (a : Nat) (x : Arr) (hw : h.wf = true)
+theorem construct_after_filter_legal (h : Heap) (a : Nat) (x : HArr) (hw : h.wf = true)
     (hx : h.arrs[a]? = some x) (hwr : x.writeable = true) :
     (h.step (.filter a)).legal (.construct [h.filterResult a]) = true := by
   simp [legal, (filter_isolates h a x hw hx hwr).1]
 
 /-- non-vacuity -/
-example : hEx.wf = true ∧ hEx.arrs[1]? = some ⟨1, true⟩ ∧ (⟨1, true⟩ : Arr).writeable = true := by
+example : hEx.wf = true ∧ hEx.arrs[1]? = some ⟨1, true⟩ ∧ (⟨1, true⟩ : HArr).writeable = true := by
   decide
 
 end SF.C01
